@@ -199,7 +199,19 @@ class ExactEngine:
             i += 1
             fn = self.M.funcs[q]
             inf = ctx.typer.of(fn)
+            on_path = None
+            if q in STRAIGHT_BRANCH_ONLY:
+                # only what the `degree == 1` branch (and the plain assignments in front of it) calls is on the exact path
+                on_path = set()
+                for st in fn.node.body:
+                    if (isinstance(st, ast.If) and _tests_degree_one(st.test)) or isinstance(st, ast.Assign):
+                        scope = st.body if isinstance(st, ast.If) else [st]
+                        on_path |= {id(n) for b in scope for n in ast.walk(b)}
+                    if isinstance(st, ast.If) and _tests_degree_one(st.test):
+                        on_path |= {id(n) for n in ast.walk(st.test)}
             for node, kind, tg in inf.calls:
+                if on_path is not None and id(node) not in on_path:
+                    continue
                 if kind in ("call", "dunder", "getter", "setter") and isinstance(tg, list):
                     for t in tg:
                         if t.qname in seen or t.qname in NONEXACT or t.name.endswith(NONEXACT_SUFFIX) or t.mod == "plot":
